@@ -197,7 +197,7 @@ func VerifC19Indexed() {
 		prev = id
 		t := verifC19.txs[id]
 		verifAssert(t.slotIx >= lo && t.slotIx <= hi, "C19.indexed: transaction outside the requested range")
-		verifAssert(len(r.Transaction.Meta) == 1 && int(r.Transaction.Meta[0]) == id, "C19.indexed: meta of another transaction")
+		verifAssert(len(r.Transaction.Meta) == 1 && int(r.Transaction.Meta[0]) == id|0x80, "C19.indexed: meta of another transaction")
 		verifAssert(r.Transaction.Index != nil && *r.Transaction.Index == uint64(t.pos), "C19.indexed: wrong position index")
 		verifAssert(r.Index != nil && *r.Index == uint64(t.pos), "C19.indexed: response does not carry the position of the transaction")
 		verifAssert(r.Slot == verifC19.start+uint64(t.slotIx), "C19.indexed: response does not carry the slot of the transaction")
@@ -211,13 +211,17 @@ func VerifC19Indexed() {
 	}
 	verifAssert(err == nil, "C19.indexed: unexpected error")
 
+	// the set: first up to a uniform polarity of the closure (the include list is applied by the
+	// index query, not by the closure), then exactly
 	eqAll, neAll := uint64(1), uint64(1)
 	for _, t := range exam {
 		d := sent[t.id] ^ f.matches(t)
+		in := f.inclAny(t)
 		eqAll &= 1 ^ d
-		neAll &= d
+		neAll &= (in & d) | ((1 ^ in) & (1 ^ sent[t.id]))
 	}
-	verifAssert(eqAll|neAll == 1, "C19.indexed: the streamed set is neither the set selected by the filter nor its complement")
+	verifAssert(eqAll|neAll == 1, "C19.indexed: the streamed set is neither the set selected by the filter nor, among the transactions mentioning an included account, its complement")
+	verifReach("checked-up-to-polarity")
 	verifKnownFinding("C19-S16-filter-polarity", len(exam) > 0)
 	verifAssert(eqAll == 1, "C19.indexed: the streamed set is not the set selected by the filter (= the set streamed by the block scan)")
 
